@@ -303,13 +303,15 @@ fn during_sync(run: &mut Run, quick: bool) {
             }
             out
         };
-        let cfg = NetCfg { max_states: if quick { 6000 } else { 200000 }, max_path: 300, budget: std::time::Duration::from_secs(if quick { 12 } else { 300 }), workers: crate::util::workers(), by_deviations: false };
+        // one thread, ascending number of deviations from the default schedule, capped by a state
+        // count: the explored part is the same on every run whatever the load of the machine
+        let cfg = NetCfg { max_states: if quick { 350 } else { 12000 }, max_path: 300, budget: std::time::Duration::from_secs(if quick { 300 } else { 3000 }), workers: 1, by_deviations: true };
         match explore_net(&mk, &none, &onq, &cfg) {
             Ok((st, findings)) => {
                 run.cov_add("states", st.states);
                 run.cov_add("transitions", st.transitions);
                 run.cov_add("traces_validated_against_impl", st.replays);
-                run.cov(&format!("during_sync_{:?}", joiner), json!({"states": st.states, "quiescent": st.quiescent_states, "cap": st.cap}));
+                run.cov(&format!("during_sync_{:?}", joiner), json!({"states": st.states, "quiescent": st.quiescent_states, "cap": st.cap, "deviations_completed": st.deviations_completed}));
                 let mut seen = std::collections::BTreeSet::new();
                 for f in findings {
                     let shape = format!("during sync ({:?}): {}", joiner, f.detail.split(';').next().unwrap_or(""));
